@@ -1009,7 +1009,12 @@ def check_divisibility(facts, rep):
                 v = norm(e.args[1])
                 if 'div_vec(' in v:
                     m = pat.match(v)
-                    got.add(('body', (red, m.group(3)), m.group(4)) if m else ('?', v[:160]))
+                    # `let Some(d) = div_vec(..) else { panic!(..) }`: the same value, the None edge diverges
+                    m2 = None if m else re.match(r'div_vec\(&subvec\(&(.+), Range::Range\{start: 0, end: (.+?)\}\), (.+?)\)\.Some\.0$', v)
+                    if m2 and not any(q.end == 'return' and any(sk(c_.term).startswith('discr(div_vec(') and c_.value in (0, 'else') and tuple(c_.args or ()) in ((1,), (0, 1), (0,)) and (c_.value == 0 or tuple(c_.args or ()) == (1,)) for c_ in q.branches()) for q in [p]):
+                        got.add(('body', (red, m2.group(2)), m2.group(3)))
+                    else:
+                        got.add(('body', (red, m.group(3)), m.group(4)) if m else ('?', v[:160]))
             for e in p.calls('div_vec'):
                 if not any('div_vec(' in norm(x.args[-1] if x.name.split('::')[-1] == 'push' else x.args[0]) for x in p.calls('push', 'expect', 'unwrap')):
                     got.add(('?', 'div_vec result not stored through expect / unwrap'))
